@@ -328,3 +328,17 @@ package rapid
 //@   ensures [C03] g.min <= float64(result) && float64(result) <= g.max
 //@   panics invalidData: true
 //@   modifies drawn
+
+// ---------------------------------------------------------------------------------------------
+// strings.go
+
+//@ func (*stringGen).value
+//@   requires [C03] g.maxRunes < 0 || g.minRunes <= g.maxRunes
+//@   requires [C03] g.minRunes < 1<<52
+//@   ensures [C03] implies(g.maxLen >= 0, len(result) <= g.maxLen)
+//@   ensures [C03] minOf(g.minRunes) <= runesWritten - old(runesWritten) && runesWritten - old(runesWritten) <= maxOf(g.maxRunes)
+//@   panics any: true
+//@   modifies drawn, runesWritten, t.failed, t.cleanups, t.ctx, t.cancelCtx, t.draws, g.elem.str, g.elem.strOnce
+//@   loop 0 invariant [C03] repeatInv(repeat) && groupUsed(repeat) && len(b.buf) <= maxLen
+//@   loop 0 invariant [C03] repeat.minCount == minOf(g.minRunes) && repeat.maxCount == maxOf(g.maxRunes) && maxLen == maxOf(g.maxLen)
+//@   loop 0 invariant [C03] runesWritten - old(runesWritten) == repeat.count
